@@ -26,8 +26,8 @@ CLAIMS = {
     },
     "C19": {
         "technique": "Verus: format_with_precedence proved to emit exactly show(ast, p) (ghost mirror using the statement's ladder), and lemma_show_denotes proves by structural induction that show(ast, p) has a derivation in the ladder grammar (explicit derivation trees) of level >= p whose tree is ast; top-level Display contract = exists derivation",
-        "text": "Unbounded proof (all expression trees) that the printed text of an expression, read with the ladder's precedence and left associativity, denotes the original tree; operator spellings and every parenthesisation decision are covered.",
-        "note": "Trusted: Formatter instantiated with a segment-recording sink (X4); Value's Display emits one opaque literal segment; each emitted segment is lexed as written; derivations of the stratified grammar are unique (textbook). Not covered: Display of Select/Join/Insert/Update/Delete (query.rs), string literals needing escapes.",
+        "text": "Unbounded proof (all expression trees, all statements incl. nested joins) that the printed text of an expression, read with the ladder's precedence and left associativity, denotes the original tree, and that Delete/Insert/Update/Select/Join print exactly the text the project's query grammar assigns to them (same tables, columns, literal values, assignments, join structure).",
+        "note": "Trusted: Formatter instantiated with a segment-recording sink (X4); Value's Display emits one opaque literal segment; each emitted segment is lexed as written; derivations of the stratified grammar are unique (textbook); keywords of the statement grammar delimit its parts. Not covered: string literals needing escapes (excluded by the statement).",
     },
     "C14": {
         "technique": "Kani complete harnesses: from_id/id inverse over all i32; encoding() pointer-equal to the encoding_rs static the identifier's documented name designates; Verus: from_id/id against the statement's identifier table",
